@@ -229,6 +229,10 @@ func init() {
 			c.opSec = x.Choose(len(c07SecLists))
 			if c.opSec == 0 {
 				c.docSec = x.Choose(len(c07SecLists))
+			} else if r.Tier == "thorough" {
+				c.docSec = x.Choose(len(c07SecLists)) // an operation-level list (even an empty one) overrides whatever the document declares
+			} else if x.Bool() {
+				c.docSec = 3 // quick: overridden document-level [{A}]
 			}
 			c.authFunc = !x.Bool()
 			c.pathQ1, c.pathH1 = x.Bool(), x.Bool()
